@@ -810,6 +810,11 @@ def _lab_plans(ctx):
     rng = random.Random(ctx.seed * 7919 + 17)
     E = lambda name, seed, tails, unm, files=1, **kw: dict({"name": name, "seed": seed, "tails": tails, "unmapped": unm, "files": files}, **kw)
     plans = [
+        # experiment names that occur inside IsoQuant's own file suffixes (audit2-B GAP C10-2: `reads` in
+        # .corrected_reads.bed, `S` in .novel_vs_known.SQANTI-like.tsv, `a` / `t` / `gene` nearly everywhere) next to a tame one
+        {"id": "suffix_names", "world": s % 1000 + 7, "cfg": {"data_type": "nanopore", "sqanti_output": True},
+         "specs": [E("Ex1", s + 13, 0.4, 1, depth=[3, 5]), E("reads", s + 14, 0.4, 0, depth=[3, 5]), E("S", s + 15, 1.0, 0, depth=[3, 5])],
+         "orders": 3, "threads": [1], "yaml_orders": 1, "trace": False},
         # polyA-rich, tail-less and the polyA-rich data once more under another name; default_pacbio preset
         {"id": "pacbio3", "world": s % 1000 + 1, "cfg": {"data_type": "pacbio"},
          "specs": [E("A", s + 1, 1.0, 3), E("N", s + 2, 0.0, 5), E("B", s + 1, 1.0, 0, tag="A")],
@@ -847,6 +852,13 @@ def _lab_plans(ctx):
             n = rng.randint(2, 4)
             from gen import samples as S
             specs = S.random_specs(rng, n, quick=False)
+            # experiment names from a pool with names that occur inside IsoQuant's own file suffixes (GAP C10-2)
+            pool = rng.sample(["reads", "a", "t", "gene", "S", "counts", "E1", "E2", "Zb2", "x.y"], n)
+            renamed = {sp["name"]: nm for sp, nm in zip(specs, pool)}
+            for sp in specs:
+                sp["name"] = renamed[sp["name"]]
+                if sp.get("tag") in renamed:
+                    sp["tag"] = renamed[sp["tag"]]
             cfg = rng.choice([{"data_type": "nanopore"}, {"data_type": "pacbio"}, {"data_type": "nanopore", "strategy": "sensitive_ont"},
                               {"data_type": "pacbio", "strategy": "sensitive_pacbio", "sqanti_output": True},
                               {"data_type": "nanopore", "polya_requirement": "never"}, {"data_type": "pacbio", "polya_requirement": "always"},
@@ -1193,20 +1205,35 @@ def check_plan(ctx, plan, only=None):
     singles = {n: lab.job_single(n, 1, cfg) for n in names}
     M.run_jobs(list(singles.values()) + joint)
     n_fail = 0
+    # a stand-alone run that fails is not an excuse for the plan (audit2-B GAP C10-2: the names `reads`, `a`, `gene` made
+    # EVERY run of the experiment abort in merge_files): it excuses only the comparison of that one experiment.  A joint
+    # run that aborts although some experiment of it works alone has taken that experiment's outputs away.
+    failed_single = set()
     for n, j in singles.items():
         if j["rc"] != 0:
+            failed_single.add(n)
+            ctx.count("oracle:standalone_run_fails")
             ctx.notes.append("stand-alone run of %s in plan %s failed (rc %s): %s" % (n, plan["id"], j["rc"], j["log"][-300:]))
-            return -1
     for j in joint:
         key = {"plan": plan["id"], "world": plan["world"], "chroms": plan.get("chroms", 2), "specs": plan["specs"], "cfg": cfg,
                "order": j["order"], "threads": j["threads"], "mode": j["mode"]}
         ctx.count("oracle:joint_runs")
         ctx.count("oracle:threads=%d" % j["threads"])
         if j["rc"] != 0:
-            ctx.fail("joint_run_crashes", key, "rc=%s %s" % (j["rc"], j["log"][-500:]))
-            n_fail += 1
+            works_alone = [n for n in j["order"] if n not in failed_single]
+            if works_alone:
+                ctx.fail("joint_run_crashes", key, "experiments %s finish when run alone (the stand-alone runs of %s fail as well); rc=%s %s"
+                         % (works_alone, sorted(failed_single), j["rc"], j["log"][-500:]))
+                n_fail += 1
+            else:
+                ctx.count("oracle:joint_and_every_standalone_run_fail")
             continue
         for n in j["order"]:
+            if n in failed_single:
+                ctx.fail("joint_run_differs_from_standalone", dict(key, experiment=n),
+                         "the stand-alone run of %s fails (rc %s), inside the joint run the experiment is processed" % (n, singles[n]["rc"]))
+                n_fail += 1
+                continue
             diffs = M.compare_experiment(singles[n]["out"], j["out"], n)
             ctx.count("oracle:experiment_comparisons")
             if diffs:
